@@ -7,7 +7,7 @@
    partitions into import trees, all targets, banner line excluded). *)
 From Coq Require Import List String Bool Arith Permutation.
 From Coq Require Import Ascii.
-From PDV Require Import Lang.Comment Idl.GrammarDefs Idl.Lexer Idl.ParserG Idl.LayoutFree Idl.LexParseProofs Idl.LexLemmas Idl.LexStable Gen.Grammar.
+From PDV Require Import Lang.Comment Idl.GrammarDefs Idl.Lexer Idl.ParserG Idl.LayoutFree Idl.LexParseProofs Idl.LexLemmas Idl.LexStable Idl.LexWhite Gen.Grammar.
 From PDV Require Import Lib.StrUtil Idl.Cst Idl.Ast Idl.Resolver Idl.ResolverProofs Idl.Visitor Idl.Front Idl.ChecksProofs Idl.LayoutProofs.
 Import ListNotations.
 Open Scope string_scope. Open Scope list_scope.
@@ -63,6 +63,20 @@ Theorem C11_line_break_isolates_what_precedes : forall la x b b' k k' line col r
 Proof. apply lex_prefix_stable. vm_compute. reflexivity. Qed.
 Print Assumptions C11_line_break_isolates_what_precedes.
 
+(* ... and the same for EVERY white-space character of the grammar (newline, blank, tab, carriage return): the side condition holds for each of
+   them (a rule that accepts the character is either a run of such characters - WS - or a literal followed by such a run - COMMENT - and then a
+   lexeme boundary in front of the character is impossible unless the run ended before; FILEPATH is the only non-greedy rule) *)
+Theorem C11_white_space_isolates_what_precedes : forall w, In w [nl; " "%char; "009"%char; "013"%char] ->
+  forall la x b b' k k' line col rest,
+    lex_from k lexer_rules (x ++ String w b) line col = Some (la ++ rest) -> concat_lexemes la = x -> no_err la ->
+    String.length (x ++ String w b') <= k' ->
+    exists rest', lex_from k' lexer_rules (x ++ String w b') line col = Some (la ++ rest').
+Proof.
+  intros w Hw. apply lex_prefix_stable.
+  destruct Hw as [<-|[<-|[<-|[<-|[]]]]]; vm_compute; reflexivity.
+Qed.
+Print Assumptions C11_white_space_isolates_what_precedes.
+
 (* ... for every rule table that passes the computable check, and every boundary character *)
 Theorem C11_boundary_character_isolates : forall c rules, table_ok c rules = true ->
   forall la x b b' k k' line col rest,
@@ -87,3 +101,40 @@ Print Assumptions C11_match_depends_on_its_own_characters.
 Theorem C11_match_stops_at_excluded_character : forall c p u r n, avoids c p = true -> In n (mlens p (u ++ String c r)%string) -> n <= String.length u.
 Proof. exact mlens_stops_at. Qed.
 Print Assumptions C11_match_stops_at_excluded_character.
+
+(* the statement for the user: between two lexemes, one white-space run may be replaced by any other white-space run that starts with the same
+   character (newline for newline, blank for blank, ...): the lexemes in front are the same, the run is one skipped lexeme, and everything after it
+   is tokenised to the same types and texts - only positions move.  (The first character matters because of line comments: a newline ends a
+   comment, a blank continues it; the hypothesis "there is a lexeme boundary in front of the run" is what excludes the inside of a comment.)
+   The white-space rule and its character set are read off the grammar translated on this run. *)
+Definition ws_set : lpat := LSet false [(32, 32); (9, 9); (13, 13); (10, 10)].
+Definition ws_pred : ascii -> bool := fun a => xorb false (in_ranges a [(32, 32); (9, 9); (13, 13); (10, 10)]).
+Lemma ws_rule_in_grammar : In ("WS", (true, false, LPlus ws_set)) lexer_rules.
+Proof. vm_compute. repeat first [left; reflexivity | right]. Qed.
+
+Theorem C11_white_space_runs_are_interchangeable : forall c, In c [nl; " "%char; "009"%char; "013"%char] ->
+  forall w1 w2 y la x k k' line col rest1,
+  run_len ws_pred w1 = String.length w1 -> run_len ws_pred w2 = String.length w2 -> (match y with EmptyString => true | String a _ => negb (ws_pred a) end) = true ->
+  lex_from k lexer_rules (x ++ String c (w1 ++ y)) line col = Some (la ++ rest1) -> concat_lexemes la = x -> no_err la ->
+  String.length (x ++ String c (w2 ++ y)) <= k' ->
+  exists rest2 e1 t1 e2 t2,
+    lex_from k' lexer_rules (x ++ String c (w2 ++ y)) line col = Some (la ++ rest2) /\
+    rest1 = e1 :: t1 /\ rest2 = e2 :: t2 /\ lexeme_text e1 = String c w1 /\ lexeme_text e2 = String c w2 /\ Forall2 same_lexeme t1 t2.
+Proof.
+  intros c Hc w1 w2 y la x k k' line col rest1 H1 H2 Hy.
+  apply (white_space_run_replaceable lexer_rules "WS" true ws_set ws_pred c w1 w2 y la x k k' line col rest1); try assumption; try reflexivity;
+    try exact ws_rule_in_grammar; destruct Hc as [<-|[<-|[<-|[<-|[]]]]]; vm_compute; reflexivity.
+Qed.
+Print Assumptions C11_white_space_runs_are_interchangeable.
+
+(* the general form: any rule table, any boundary character that passes the two computable checks *)
+Theorem C11_white_space_run_replaceable : forall rules nm0 sk0 q pr c w1 w2 y la x k k' line col rest1,
+  table_ok c rules = true -> In (nm0, (sk0, false, LPlus q)) rules -> single_char q = Some pr -> others_silent rules nm0 c = true -> pr c = true ->
+  run_len pr w1 = String.length w1 -> run_len pr w2 = String.length w2 -> (match y with EmptyString => true | String a _ => negb (pr a) end) = true ->
+  lex_from k rules (x ++ String c (w1 ++ y)) line col = Some (la ++ rest1) -> concat_lexemes la = x -> no_err la ->
+  String.length (x ++ String c (w2 ++ y)) <= k' ->
+  exists rest2 e1 t1 e2 t2,
+    lex_from k' rules (x ++ String c (w2 ++ y)) line col = Some (la ++ rest2) /\
+    rest1 = e1 :: t1 /\ rest2 = e2 :: t2 /\ lexeme_text e1 = String c w1 /\ lexeme_text e2 = String c w2 /\ Forall2 same_lexeme t1 t2.
+Proof. exact white_space_run_replaceable. Qed.
+Print Assumptions C11_white_space_run_replaceable.
